@@ -104,6 +104,27 @@ def shard(ctx):
         far_offset_group(ctx, rng, P)
 
 
+def failing_extraction_first(ctx, rng):
+    """an extraction that fails (deflate stream damaged, or cut off by the end of the file) in the same process right before the
+    extraction under test: nothing of it may carry over (a decompressor kept between calls, a buffer, a position)"""
+    db = sq.DatBuilder()
+    content_ = b"abcdefgh" * 300 + rng.randbytes(300)
+    entry, _ = sq.standard_entry([content_[:1500], content_[1500:]], ["dynamic", rng.choice(["dynamic", "fixed"])])
+    off = db.add(entry)
+    data = bytearray(db.bytes())
+    hsize = struct.unpack_from("<I", data, off)[0]
+    if rng.random() < 0.7:
+        p = off + hsize + 16 + rng.randrange(8, 200)
+        for k in range(rng.choice([2, 8, 32])):
+            data[p + k] ^= 0xA5
+    else:
+        data = data[:off + hsize + 16 + rng.randrange(20, 400)]
+    f = ctx.write("failing.dat", bytes(data))
+    rec = ctx.call("dat.read", f, off, "-", input_bytes=len(data))
+    ctx.stats.monitor["failing_extraction_first:" + rec.outcome.split(":")[0]] += 1
+    ctx.stats.classes["history:after-a-failed-extraction"] += 1
+
+
 def far_offset_group(ctx, rng, P):
     """entries stored beyond 4 GiB in a (sparse) dat file: an index entry addresses 128-aligned offsets up to 2^35, and every
     offset inside an entry is relative to the entry, so the arithmetic must be carried out in 64 bits"""
@@ -220,9 +241,14 @@ def group(ctx, rng, P):
                 order = list(range(len(chunks)))
                 rng.shuffle(order) if rng.random() < 0.7 else order.reverse()
             xh = rng.choice([0, 0, 0, 1, 2])
-            entry, used = sq.standard_entry(chunks, strategies, gap=rng.choice([0, 0, 1]), order=order, extra_header=xh)
+            # the first stored block need not sit at the start of the block area either: a stale block (well-formed, other content)
+            # or filler may lie in front of it - also for an entry of a single block
+            lead = None
+            if chunks and rng.random() < 0.25:
+                lead = sq.pack_block(rng.randbytes(rng.choice([1, 100, 2000])), rng.choice(["raw", "dynamic"]))[0] if rng.random() < 0.7 else b"\xCD" * 128 * rng.choice([1, 3])
+            entry, used = sq.standard_entry(chunks, strategies, gap=rng.choice([0, 0, 1]), order=order, extra_header=xh, lead=lead)
             exp = dict(kind=kind, data=data)
-            meta = dict(kind=kind, content=ck, length=len(data), blocks=len(chunks), storage="permuted" if order else "in-order")
+            meta = dict(kind=kind, content=ck, length=len(data), blocks=len(chunks), storage="permuted" if order else ("stale-block-in-front" if lead else "in-order"))
         elif kind == "texture":
             hl = rng.choice([80, 80, 80, 0, 16, 200])
             header = rng.randbytes(hl)
@@ -321,6 +347,8 @@ def group(ctx, rng, P):
         ctx.case(key, nontrivial, classes, sample=dict(meta, offset=off, dat=datid, via=via))
         if os.path.exists(out):
             os.unlink(out)
+        if rng.random() < 0.12 and not ctx.params.get("lsan"):
+            failing_extraction_first(ctx, rng)
         if gd is not None:
             rec = ctx.call("gd.extract", gd, path, out, input_bytes=fsz)
             residual = False  # index cache of the handle legitimately grows on the first query
